@@ -126,7 +126,7 @@ func runBlocked(in input) lib.Case {
 	for {
 		select {
 		case c := <-e.connectedCh:
-			e.conns = append(e.conns, &connRec{idx: len(e.conns), peer: 0, dialled: true, our: c})
+			e.addConn(&connRec{idx: len(e.conns), peer: 0, dialled: true, our: c})
 			continue
 		default:
 		}
